@@ -461,10 +461,23 @@ def run(prog: Program) -> Results:
     gi = prog.func("AttributeSet.__getitem__")
     r5.instances += 1
     ctx = [d for d in ast.walk(gi.node) if isinstance(d, ast.Assign) and "scopes_for_owner(self)" in norm(d.value)]
-    ok = bool(ctx) and alpha(ctx[0].value, gi.node) == "tuple(list(scopes_for_owner(self)) + [$1])" and any(
-        isinstance(d, ast.Assign) and norm(d.targets[0]) == norm(ctx[0].value.args[0].right.elts[0]) and norm(d.value).startswith("Scope(self.values")
-        for d in ast.walk(gi.node))
-    r5.ob(ok, {"AttributeSet.__getitem__ inherit arm": norm(ctx[0].value) if ctx else None})
+    def _own_scope_last(v) -> bool:
+        # tuple(list(scopes_for_owner(self)) + [<the set's own scope>]) with the own scope bound to a local or written in place
+        if not (isinstance(v, ast.Call) and callee(v) == "tuple" and v.args and isinstance(v.args[0], ast.BinOp) and isinstance(v.args[0].op, ast.Add)):
+            return False
+        left, right = v.args[0].left, v.args[0].right
+        if norm(left) != "list(scopes_for_owner(self))" or not (isinstance(right, ast.List) and len(right.elts) == 1):
+            return False
+        el = right.elts[0]
+        if isinstance(el, ast.Call):
+            return norm(el).startswith("Scope(self.values")
+        return any(isinstance(d, ast.Assign) and norm(d.targets[0]) == norm(el) and norm(d.value).startswith("Scope(self.values") for d in ast.walk(gi.node))
+
+    ctx = ctx or [d for d in ast.walk(gi.node) if isinstance(d, ast.Call) and callee(d) == "set_resolution_context" and len(d.args) > 1
+                  and "scopes_for_owner(self)" in norm(d.args[1])]
+    _v = (ctx[0].value if isinstance(ctx[0], ast.Assign) else ctx[0].args[1]) if ctx else None
+    ok = _v is not None and _own_scope_last(_v)
+    r5.ob(ok, {"AttributeSet.__getitem__ inherit arm": norm(_v)[:80] if _v is not None else None})
     if not ok:
         res.add("R-C10-5", ("AttributeSet.__getitem__", "inherit chain"), gi.loc(ctx[0] if ctx else None),
                 "the chain attached to an inherited name does not end with the set's own scope (innermost last)")
